@@ -62,7 +62,9 @@ Inductive ctx :=
 | CKwarg         (* name(key=L)         *)
 | CIndex         (* name = x[L]         *)
 | CLambda        (* name = lambda y: y + L     let name = (y) => y + L;     let name = |y| y + L; *)
-| CMacro.        (* name!(L, L);        *)
+| CMacro         (* name!(L, L);        *)
+| CTsField       (* static readonly NAME = L;   (class body) *)
+| CRsEnum.       (* enum E { M0 = L, M1 = L }   (Rust) *)
 
 Record site := mk_site { s_ctx : ctx; s_name : string; s_lits : list lit; s_line : nat }.
 
@@ -81,7 +83,9 @@ Record file := mk_file { f_name : string; f_scopes : list scope }.
 Record mconfig := mk_cfg {
   c_allowed : option (list num);
   c_max_small : option Z;
-  c_lang : option (option (list num) * option Z) }.
+  c_lang : option (option (list num) * option Z);
+  c_enabled : option bool;               (* the `enabled` key of the section *)
+  c_ignore : list string }.              (* the `ignore` patterns of the section *)
 
 (* MagicNumberConfig.from_dict: the sources consulted, in the order read from the source *)
 Fixpoint resolve {A} (chain : list string) (lang top : option A) (dflt : A) : A :=
@@ -203,7 +207,7 @@ Definition py_ctx_chain (c : ctx) (name : string) (l : lit) : list pyanc :=
   | CKwarg => [AOther "keyword"; ACall (Some name); AOther "Expr"]
   | CIndex => [AOther "Subscript"; asg]
   | CLambda => [ABinOp "Add" false (lit_is_str l); AOther "Lambda"; asg]
-  | CTsEnum | CRsStatic | CMacro => [AOther "<none>"]
+  | CTsEnum | CRsStatic | CMacro | CTsField | CRsEnum => [AOther "<none>"]
   end.
 
 (* the ast.Constant of a literal (an identifier is a Name, not a Constant) *)
@@ -331,7 +335,8 @@ Definition tnames (tys : list string) : list tsanc := map tn tys.
 
 Definition ts_scope_chain (k : skind) : list tsanc :=
   match k with
-  | STop | SClass => [tn "program"]
+  | STop => [tn "program"]
+  | SClass => tnames ["class_body"; "class_declaration"; "program"]
   | SFunc => tnames ["statement_block"; "function_declaration"; "program"]
   | SMethod => tnames ["statement_block"; "method_definition"; "class_body"; "class_declaration"; "program"]
   | SNested => tnames ["statement_block"; "arrow_function"]
@@ -358,6 +363,7 @@ Definition ts_ctx_chain (c : ctx) (name : string) : list tsanc :=
   | CMatch => tnames ["switch_case"; "switch_body"; "switch_statement"]
   | CIndex => tn "subscript_expression" :: ts_decl name
   | CLambda => tnames ["binary_expression"; "arrow_function"] ++ ts_decl name
+  | CTsField => tnames ["public_field_definition"]
   | _ => [tn "<none>"]
   end.
 
@@ -476,6 +482,7 @@ Definition rs_ctx_chain (c : ctx) : list rsanc :=
   | CMatch => rnames ["match_pattern"; "match_arm"; "match_block"; "match_expression"; "expression_statement"]
   | CIndex => rnames ["index_expression"; "let_declaration"]
   | CLambda => rnames ["binary_expression"; "closure_expression"; "let_declaration"]
+  | CRsEnum => rnames ["enum_variant"; "enum_variant_list"; "enum_item"]
   | _ => rnames ["<none>"]
   end.
 
@@ -520,3 +527,99 @@ Definition rs_report (q : mquirks) (cfg : mconfig) (f : file) : list mrep :=
 (* ------------------------------------------------------------------ all languages *)
 Definition report (l : mlang) (q : mquirks) (cfg : mconfig) (f : file) : list mrep :=
   match l with MPy => py_report q cfg f | MTs => ts_report q cfg f | MRs => rs_report q cfg f end.
+
+(* ------------------------------------------------------------------ the section switches: enabled, ignore *)
+Definition enabled (cfg : mconfig) : bool := match c_enabled cfg with Some b => b | None => cfg_enabled_default end.
+
+(* one path segment against one pattern segment: * any run of characters, ? one character (fnmatch, no brackets) *)
+Fixpoint seg_match (fuel : nat) (pat s : list ascii) : bool :=
+  match fuel with
+  | O => false
+  | S fuel' =>
+    match pat with
+    | [] => match s with [] => true | _ => false end
+    | p :: pat' =>
+      if Ascii.eqb p "*"%char
+      then seg_match fuel' pat' s || match s with _ :: s' => seg_match fuel' pat s' | [] => false end
+      else match s with
+           | c :: s' => (Ascii.eqb p "?"%char || Ascii.eqb p c) && seg_match fuel' pat' s'
+           | [] => false
+           end
+    end
+  end.
+
+Fixpoint split_slash (s : list ascii) (cur : list ascii) : list (list ascii) :=
+  match s with
+  | [] => match cur with [] => [] | _ => [cur] end
+  | c :: r => if Ascii.eqb c "/"%char then (match cur with [] => split_slash r [] | _ => cur :: split_slash r [] end)
+              else split_slash r (cur ++ [c])
+  end.
+
+Fixpoint segs_match_rev (pats segs : list (list ascii)) : bool :=
+  match pats, segs with
+  | [], _ => true
+  | p :: ps, s :: ss => seg_match (S (S (List.length p + List.length s + List.length s))) p s && segs_match_rev ps ss
+  | _ :: _, [] => false
+  end.
+
+(* PurePath(abs).match(pattern) for a relative pattern: the pattern's segments against the last segments of the path
+   (Python 3.12: a `**` segment behaves like `*`).  The project root contributes two anonymous segments. *)
+Definition root_segs : list (list ascii) := [[ascii_of_nat 1]; [ascii_of_nat 1]].
+Definition path_match (pattern path : string) : bool :=
+  match split_slash (chars pattern) [] with
+  | [] => false
+  | ps => segs_match_rev (rev ps) (rev (root_segs ++ split_slash (chars path) []))
+  end.
+
+(* MagicNumberRule._matches_pattern, the tests listed in the source *)
+Definition ignore_matches (pattern path : string) : bool :=
+  (smem "path_match" ignore_match_modes && path_match pattern path)
+  || (smem "substring" ignore_match_modes && contains (chars pattern) (chars path)).
+
+Definition file_ignored (cfg : mconfig) (path : string) : bool := existsb (fun p => ignore_matches p path) (c_ignore cfg).
+
+(* MultiLanguageLintRule.check + _check_<language>: nothing when the linter is disabled or the file is ignored *)
+Definition lint (l : mlang) (q : mquirks) (cfg : mconfig) (f : file) : list mrep :=
+  if negb (enabled cfg) then [] else if file_ignored cfg (f_name f) then [] else report l q cfg f.
+
+(* ------------------------------------------------------------------ same-line ignore directives *)
+(* a trailing comment on a statement line: its text after the comment leader, and what the shared IgnoreDirectiveParser reads
+   in it (None: no directive; Some []: the bare `thailint: ignore`; Some rules: `thailint: ignore[r1, r2]`).  The parser is
+   property C04's subject: here it is an oracle on the directive forms of the pool, validated by the correspondence. *)
+Record directive := mk_dir { d_text : string; d_rules : option (list string) }.
+Definition dirs := list (nat * directive).
+
+Definition rule_matches (r : string) : bool := String.eqb r "magic-numbers" || String.eqb r magic_rule_id.
+Definition parser_ignores (d : directive) : bool :=
+  match d_rules d with None => false | Some [] => true | Some rs => existsb rule_matches rs end.
+
+Fixpoint after_first (needle hay : list ascii) : option (list ascii) :=
+  if prefix_l needle hay then Some (skipn (List.length needle) hay)
+  else match hay with [] => None | _ :: r => after_first needle r end.
+Fixpoint before_first (needle hay : list ascii) : list ascii :=
+  if prefix_l needle hay then [] else match hay with [] => [] | c :: r => c :: before_first needle r end.
+
+(* `M in line` and no bracket between M and the next separator *)
+Definition generic_ignore (msb : string * string * string) (line : list ascii) : bool :=
+  let '(m, s, b) := msb in
+  match after_first (chars m) line with
+  | None => false
+  | Some rest => negb (contains (chars b) (before_first (chars s) rest))
+  end.
+
+Definition comment_leader (l : mlang) : string := match l with MPy => "#" | _ => "//" end.
+Definition dir_line (l : mlang) (d : directive) : list ascii := map lower_char (chars (comment_leader l ++ " " ++ d_text d)).
+
+(* MagicNumberRule._should_ignore (Python, Rust) / TypeScriptIgnoreChecker.should_ignore: the parser, then the linter's own checks *)
+Definition own_ignores (l : mlang) (line : list ascii) : bool :=
+  match l with
+  | MTs => contains (chars ts_dir_specific) line || generic_ignore ts_dir_generic line || contains (chars ts_dir_noqa) line
+  | _ => generic_ignore py_dir_generic line || contains (chars py_dir_noqa) line
+  end.
+Definition model_suppresses (l : mlang) (d : directive) : bool := parser_ignores d || own_ignores l (dir_line l d).
+
+Definition suppressed_at (sup : directive -> bool) (ds : dirs) (line : nat) : bool :=
+  existsb (fun ld : nat * directive => (fst ld =? line) && sup (snd ld)) ds.
+
+Definition lint_d (l : mlang) (q : mquirks) (cfg : mconfig) (f : file) (ds : dirs) : list mrep :=
+  filter (fun r => negb (suppressed_at (model_suppresses l) ds (fst r))) (lint l q cfg f).
